@@ -525,7 +525,7 @@ func WaitClosed(c net.Conn, br *bufio.Reader, d time.Duration) (closed bool, ext
 
 // FreePort returns a loopback port that is currently not listening (closed right away).
 // FreeAddr returns ip:port with a port nobody listens on and nobody else will be given for the next half minute:
-// ports come from 20000-29999 (the driver asks the kernel never to auto-assign those), each claimed through a lock file
+// ports come from 60000-65499 (above the range the driver lets the kernel assign from), each claimed through a lock file
 // that every harness process honours - several checks, or shards of one, run at the same time and each starts
 // proxies on addresses it has to know beforehand.
 func FreeAddr(ip string) string {
@@ -533,7 +533,7 @@ func FreeAddr(ip string) string {
 	os.MkdirAll(dir, 0o777)
 	for try := 0; try < 400; try++ {
 		n := portSeq.Add(1)
-		port := 20000 + int((uint64(os.Getpid())*7919+uint64(n)*104729+uint64(try)*31)%10000)
+		port := 60000 + int((uint64(os.Getpid())*7919+uint64(n)*104729+uint64(try)*31)%5500)
 		lock := filepath.Join(dir, strconv.Itoa(port))
 		f, err := os.OpenFile(lock, os.O_CREATE|os.O_EXCL|os.O_WRONLY, 0o666)
 		if err != nil {
